@@ -221,7 +221,17 @@ func replaceExpr(expr Expr, from []string, to []Expr, clone bool) Expr {
 			for i, e2 := range e.Exprs {
 				r := replaceExpr(e2, from, to, clone)
 				if c, ok := r.(*Constant); ok && c.Val == zero {
-					return r
+					if i == 0 {
+						return r
+					}
+					// the operands before it are still evaluated (and type checked)
+					// only the ones after it are not
+					if newExprs == nil {
+						newExprs = make([]Expr, len(e.Exprs))
+						copy(newExprs, e.Exprs[:i])
+					}
+					newExprs[i] = r
+					return aFolder.Nary(e.Tok, newExprs[:i+1])
 				}
 				if r != e2 || clone {
 					if newExprs == nil {
